@@ -5,6 +5,9 @@ use crate::case::{Case, CaseResult};
 
 pub mod common;
 pub mod c03;
+pub mod c04;
+pub mod c06;
+pub mod c09;
 pub mod c17;
 pub mod c19;
 
@@ -37,6 +40,11 @@ pub trait Property: Sync + Send {
         "real: every crate of the egglog workspace as compiled from /repo plus its dependencies; stub: none (the reference model is an oracle, not a stub)"
     }
     fn budget(&self, tier: Tier) -> Budget;
+    /// Cases are generated in groups of this size sharing one seed (e.g. one
+    /// program under several schedules); `index` distinguishes the members.
+    fn group(&self) -> u64 {
+        1
+    }
     /// Generate the i-th case of a batch.
     fn generate(&self, seed: u64, index: u64, tier: Tier) -> Case;
     fn isolation(&self, case: &Case) -> Isolation {
@@ -51,12 +59,12 @@ pub trait Property: Sync + Send {
     }
     /// Per-case wall clock limit in seconds.
     fn timeout_s(&self) -> u64 {
-        120
+        40
     }
 }
 
 pub fn all() -> Vec<Box<dyn Property>> {
-    vec![Box::new(c03::C03), Box::new(c17::C17), Box::new(c19::C19)]
+    vec![Box::new(c03::C03), Box::new(c04::C04), Box::new(c06::C06), Box::new(c09::C09), Box::new(c17::C17), Box::new(c19::C19)]
 }
 
 pub fn get(id: &str) -> Option<Box<dyn Property>> {
